@@ -150,6 +150,10 @@ impl<C: Cursor> Cursor for BoundsCursor<C> {
         if self.bounds == Bounds::BeforeStart {
             self.seek_to_first()?;
             self.next()?;
+        } else if self.bounds == Bounds::AfterEnd || self.cursor.key().is_none() {
+            // The sought key lies beyond the end bound (or beyond the underlying cursor).  Park the
+            // underlying cursor just past the last in-bounds key so that prev() stays in bounds.
+            self.seek_to_last()?;
         }
         Ok(())
     }
